@@ -42,6 +42,9 @@ def L(v: Any, t: Optional[str] = None) -> Dict[str, Any]:
 
 
 U16_SET = [0, 1, 2, 9, 10, 11, 99, 100, 101, 127, 128, 255, 256, 999, 1000, 1001, 32767, 32768, 39999, 40000, 40001, 65534, 65535]
+B53, B63, B64 = 2**53, 2**63, 2**64
+U64_SET = [0, 1, 2, 255, B53 - 2, B53 - 1, B53, B53 + 1, B53 + 2, B53 + 3, 2 * B53, 2 * B53 + 1, 2 * B53 + 2, B63 - 1, B63, B63 + 1, B64 - 3, B64 - 2, B64 - 1]
+I64_SET = [0, 1, -1, 2, -2, 127, -128, B53 - 1, B53, B53 + 1, B53 + 2, -B53 + 1, -B53, -B53 - 1, -B53 - 2, B63 - 3, B63 - 2, B63 - 1, -B63, -B63 + 1, -B63 + 2]
 F32_SET = [0.0, 0.5, -0.5, 1.0, -1.0, 1.5, 2.0, 3.0, 7.25, 9.5, 10.0, 10.5, 11.0, 99.5, 100.0, 100.5, 199.5, 200.0, 200.25, 200.5,
            255.0, 1000.0, 1000.5, -10.0, -10.5, -11.0, -128.0, 1e6, -1e6, 0.1]
 
@@ -70,6 +73,12 @@ def internal_values(it: str, cm: Dict[str, Any]) -> List[Any]:
         for v in cm_numbers(cm):
             s.update(x for x in (int(v) - 1, int(v), int(v) + 1) if 0 <= x <= 65535)
         vals = sorted(s)
+    elif it in ("u64", "i64"):
+        lo64, hi64 = (0, 2**64 - 1) if it == "u64" else (-2**63, 2**63 - 1)
+        s3 = set(U64_SET if it == "u64" else I64_SET)
+        for v in cm_numbers(cm):
+            s3.update((int(v) - 2, int(v) - 1, int(v), int(v) + 1, int(v) + 2))
+        vals = sorted(x for x in s3 if lo64 <= x <= hi64)
     elif typ in R.FLOAT_TYPES:
         s2 = set(F32_SET)
         for v in cm_numbers(cm):
@@ -154,7 +163,7 @@ def is_float_type(pt: str) -> bool:
 
 def gen_identical(quick: bool) -> List[Method]:
     I = {"cat": "IDENTICAL"}
-    return [("u8", "A_UINT32", I), ("i8", "A_INT32", I), ("u16", "A_UINT32", I), ("f32", "A_FLOAT32", I), ("f64", "A_FLOAT64", I),
+    return [("u8", "A_UINT32", I), ("i8", "A_INT32", I), ("u16", "A_UINT32", I), ("u64", "A_UINT32", I), ("i64", "A_INT32", I), ("f32", "A_FLOAT32", I), ("f64", "A_FLOAT64", I),
             ("ascii", "A_UNICODE2STRING", I), ("utf8", "A_UNICODE2STRING", I), ("ucs2", "A_UNICODE2STRING", I),
             ("ascii", "A_ASCIISTRING", I), ("ucs2", "A_UTF8STRING", I), ("bytes", "A_BYTEFIELD", I)]
 
@@ -186,6 +195,31 @@ def gen_linear(quick: bool) -> List[Method]:
             for lname, lo, hi in limit_menu(it)[:3]:
                 out.append((it, pt, {"cat": "LINEAR", "i2p": [with_limits({"num": [1, 3]}, lo, hi)]}))
                 out.append((it, pt, {"cat": "LINEAR", "i2p": [with_limits({"num": [7], "den": [1], "inv": a + 5}, lo, hi)]}))
+    # denominators whose division is inexact in binary, real-valued physical type: the image of an internal value exactly AT a
+    # limit must be a valid physical value and convert back
+    for it in its:
+        for pt in ("A_FLOAT32", "A_FLOAT64"):
+            offs = (0, 1) if quick else (-3, 0, 1, 2.5)
+            facs = (-2, 1, 3) if quick else (-2, -1, 1, 3, 0.5)
+            lims = limit_menu(it) + zero_limit_menu(it)
+            if quick:
+                lims = [l for l in lims if l[0] in ("closed", "open", "closed-inf", "zero-closed")]
+            for o, f, d in itertools.product(offs, facs, (3, 7, 100, -3)):
+                if quick and d == -3 and (o, f) != (0, 1):
+                    continue
+                if pt == "A_FLOAT64" and o != 0:
+                    continue
+                for lname, lo, hi in lims:
+                    out.append((it, pt, {"cat": "LINEAR", "i2p": [with_limits({"num": [o, f], "den": [d]}, lo, hi)]}))
+    # 64-bit internal types: limits and values around 2^53, 2^63 and 2^64 (integer comparison must be exact)
+    wide = {"u64": [(B53, B64 - 1), (10, B53), (B53 + 1, 2 * B53 + 1), (B63, B64 - 2)],
+            "i64": [(-B53, B63 - 1), (-B63, B53), (-B53 - 1, B53 + 1), (-B63 + 1, -B53)]}
+    for it, ranges in wide.items():
+        for pt in ("A_UINT32", "A_INT32", "A_FLOAT64"):
+            for a64, b64 in ranges:
+                for lo, hi in ((L(a64, "CLOSED"), L(b64, "CLOSED")), (L(a64, "OPEN"), L(b64, "OPEN")), (L(a64, "OPEN"), b64), (a64, L(b64, "OPEN"))):
+                    for num, den in (([0, 1], [1]), ([0, -1], [1]), ([3, 2], [2])):
+                        out.append((it, pt, {"cat": "LINEAR", "i2p": [{"num": num, "den": den, "lo": lo, "hi": hi}]}))
     if not quick:
         out.append(("f64", "A_FLOAT64", {"cat": "LINEAR", "i2p": [{"num": [2.5, -0.5], "den": [4], "lo": L(-1.5, "OPEN"), "hi": L(99.75, "CLOSED")}]}))
         out.append(("u8", "A_FLOAT64", {"cat": "LINEAR", "i2p": [{"num": [2.5, -0.5], "den": [4], "lo": L(10, "OPEN"), "hi": L(200, "CLOSED")}]}))
@@ -284,6 +318,23 @@ def gen_scale_linear(quick: bool) -> List[Method]:
                             sc["num"] = [-c for c in sc["num"]]
                             sc["den"] = [-c for c in sc["den"]]
                     out.append((it, pt, cm))
+    # slopes whose denominators are inexact in binary (one denominator family per method), real-valued physical type
+    T3, T7, T100 = F(1, 3), F(1, 7), F(1, 100)
+    inexact = [(T3,), (T3, 2 * T3), (2 * T3, T3, T3), (-T3, -2 * T3), (T3, 4 * T3, 2 * T3, T3),
+               (T7,), (2 * T7, 3 * T7), (-T7, -3 * T7, -T7), (T100,), (3 * T100, 7 * T100), (-T100, -9 * T100, -3 * T100)]
+    for it, pt in (("u8", "A_FLOAT32"), ("i8", "A_FLOAT64"), ("f32", "A_FLOAT32")):
+        bk = BREAKS["f32i" if it == "f32" else it]
+        for slopes in inexact:
+            for style in styles:
+                for neg in (False, True):
+                    cm = scale_linear_cm(bk, slopes, 0, style, True)
+                    if cm is None:
+                        continue
+                    if neg:
+                        for sc in cm["i2p"]:
+                            sc["num"] = [-c for c in sc["num"]]
+                            sc["den"] = [-c for c in sc["den"]]
+                    out.append((it, pt, cm))
     # scales with a gap between them, and a decreasing jump
     for it, pt in (("u8", "A_INT32"), ("i8", "A_FLOAT32")):
         a = BREAKS[it]
@@ -356,6 +407,18 @@ def gen_rat_func(quick: bool) -> List[Method]:
                         if p2i is not None:
                             cm["p2i"] = p2i
                         out.append((it, pt, cm))
+    out += [m for m in wide_rat_func() if m[2]["cat"] == "RAT-FUNC"]
+    return out
+
+
+def wide_rat_func() -> List[Method]:
+    out: List[Method] = []
+    for it, (a64, b64) in (("u64", (B53, B64 - 1)), ("u64", (B53 + 1, B63)), ("i64", (-B63, B53)), ("i64", (-B53 - 1, B63 - 1))):
+        for pt in ("A_FLOAT64", "A_INT32"):
+            for lo, hi in ((L(a64, "CLOSED"), L(b64, "CLOSED")), (L(a64, "OPEN"), L(b64, "OPEN"))):
+                out.append((it, pt, {"cat": "RAT-FUNC", "i2p": [{"num": [0, 1], "den": [1], "lo": lo, "hi": hi}]}))
+                out.append((it, pt, {"cat": "SCALE-RAT-FUNC", "i2p": [{"num": [0, 1], "den": [1], "lo": L(-B63 if it == "i64" else 0, "CLOSED"), "hi": L(a64, "CLOSED")},
+                                                                       {"num": [1, 1], "den": [1], "lo": L(a64, "OPEN"), "hi": hi}]}))
     return out
 
 
@@ -384,6 +447,7 @@ def gen_scale_rat_func(quick: bool) -> List[Method]:
                         if p2i is not None:
                             cm["p2i"] = p2i
                         out.append((it, pt, cm))
+    out += [m for m in wide_rat_func() if m[2]["cat"] == "SCALE-RAT-FUNC"]
     return out
 
 
@@ -442,6 +506,18 @@ def gen_texttable(quick: bool) -> List[Method]:
                         cm = {"cat": "TEXTTABLE", "i2p": rows}
                         cm.update(dv)
                         out.append((it, pt, cm))
+    # 64-bit internal types: adjacent rows that meet at 2^53 / 2^63 / 2^64-1 (exact integer comparison decides the row)
+    for it, lo0 in (("u64", 0), ("i64", -B63)):
+        top = B64 - 1 if it == "u64" else B63 - 1
+        for mid in (B53, B53 + 1, 2 * B53, B63 - 3 if it == "i64" else B63):
+            for style in ("co", "oc"):
+                rows = [{"lo": L(lo0, "CLOSED"), "hi": L(mid, "OPEN" if style == "co" else "CLOSED"), "const": "low", "inv": mid - 1},
+                        {"lo": L(mid, "CLOSED" if style == "co" else "OPEN"), "hi": L(top, "OPEN"), "const": "high", "inv": mid + 1},
+                        {"lo": top, "const": "max"}]
+                for dv in ({}, {"default_phys": "dflt"}):
+                    cm = {"cat": "TEXTTABLE", "i2p": [dict(r) for r in rows]}
+                    cm.update(dv)
+                    out.append((it, "A_UNICODE2STRING", cm))
     return out
 
 
@@ -552,6 +628,7 @@ class Evaluator:
         self.found: List[Tuple[str, Dict[str, Any], str]] = []
         self.nontrivial = False
         self.tie_x = False
+        self.image_of: Dict[Any, Any] = {}  # computed image -> internal value it is the image of
         self.pres: Dict[Any, Tuple[bool, Any, bool]] = {}  # p -> (declared valid, converted value, formula ok)
 
     def viol(self, op: str, mode: str, vpart: Dict[str, Any], detail: str) -> None:
@@ -629,6 +706,8 @@ class Evaluator:
         if k in self.pres:
             return
         want = ref.valid_physical(p)
+        if want is None and k in self.image_of:
+            want = ref.valid_physical_image(self.image_of[k], p)  # the computed image of a valid internal value
         st, got = call(obj.is_valid_physical_value, p)
         part.count("evaluations")
         vp = {"p": enc(p)}
@@ -709,6 +788,10 @@ class Evaluator:
             if img is not None:
                 pairs.append((x, img, self.tie_x))
                 images.append(img)
+                try:
+                    self.image_of.setdefault(vkey(img), x)
+                except TypeError:
+                    pass
         ps: List[Any] = list(extra_ps)
         if derive_ps == "images":
             ps += images
